@@ -82,7 +82,7 @@ def curated():
                                      SEEK(0, 2), READ(0, 1), SEEK(0, 0), READ(0, 0), ENDACC(0), CLOSE(), OPEN(DFACC_READ), GET(0), GET(1), CLOSE()]))
     return S
 
-def random_skeleton(rng):
+def random_skeleton(rng, small=False):
     """seed-derived extra skeletons: random but semantically valid op sequences."""
     ops = [CREATE(rng.choice([4, 5, 16]))]
     if rng.random() < 0.3:
@@ -102,7 +102,7 @@ def random_skeleton(rng):
             n = rng.randint(1, 8)
             ops += [STARTACC(e, 0, 3), WRITE(0, n), ENDACC(0)]; lens[e] = n
     grower = None  # growing a contiguous element promotes it to 4096-byte linked blocks: at most one such element per skeleton (model disk 8 KiB)
-    for _ in range(rng.randint(2, 4)):
+    for _ in range(rng.randint(1, 2) if small else rng.randint(2, 4)):  # quick tier: short skeletons (per-command time budget)
         e = rng.choice([0, 1])
         ops.append(STARTACC(e, 0, 7))
         pos = rng.randint(0, lens[e] + (2 if kinds[e] != "put" or True else 0))
@@ -117,7 +117,7 @@ def random_skeleton(rng):
         lens[e] = max(lens[e], pos + n)
         rp = rng.randint(0, lens[e] - 1)
         ops += [SEEK(0, rp), READ(0, rng.randint(0, 8)), ENDACC(0)]
-        if rng.random() < 0.4:
+        if not small and rng.random() < 0.4:
             ops += [CLOSE(), OPEN(DFACC_RDWR)]
     ops += [CLOSE(), OPEN(DFACC_READ), GET(0), GET(1), CHECKALL(), CLOSE()]
     return ops
@@ -129,5 +129,5 @@ def plan(ctx, tier, seed):
     rng = random.Random(1000 + seed)
     nrand = 2 if tier == "quick" else 60
     for i in range(nrand):
-        hs.append(scenario("C01.S1.rand%d" % i, "C01", random_skeleton(rng), disk=8192, group="C01.S1.rand"))
+        hs.append(scenario("C01.S1.rand%d" % i, "C01", random_skeleton(rng, small=(tier == "quick")), disk=8192, group="C01.S1.rand"))
     return hs
